@@ -5,9 +5,9 @@ import (
 	"sort"
 	"time"
 
-	cbackoff "github.com/cenkalti/backoff/v4"
 	"github.com/aperturerobotics/util/keyed"
 	"github.com/aperturerobotics/util/zzverif/vsched"
+	cbackoff "github.com/cenkalti/backoff/v4"
 	"verifharness/eng"
 )
 
@@ -33,12 +33,14 @@ func keyIdx(k string) int {
 // keyedInstance is the body of every keyed routine instance.
 func keyedInstance(ctx context.Context, key string, outcome int) error {
 	ki := keyIdx(key)
+	removedAtEntry := vsched.Ctr(kRemovedA) != 0 // sampled at the very entry, before any scheduling point
+	done := ctx.Done() // (a scheduling point) before the instance registers itself
 	id := int(vsched.CtrAdd(kEntered, 1)) - 1
 	if id >= 36 {
 		fail("infra.too-many-instances", "more than 36 instances")
 		return nil
 	}
-	vsched.SetCell(id, ctx)
+	vsched.SetCell(id, done)
 	vsched.CtrSet(kKey0+id, int64(ki))
 	vsched.CtrAdd(kRunsA+ki, 1)
 	a := vsched.CtrAdd(kActiveA+ki, 1)
@@ -46,7 +48,7 @@ func keyedInstance(ctx context.Context, key string, outcome int) error {
 	if a > 1 {
 		fail("C07.overlap", "a second instance of key %q entered its function while another one is still executing", key)
 	}
-	if ki == 0 && vsched.Ctr(kRemovedA) != 0 {
+	if ki == 0 && removedAtEntry {
 		fail("C07.started-after-removal", "an instance of key %q entered its function after the key had been removed / the context cleared", key)
 	}
 	var err error
@@ -73,7 +75,7 @@ func liveKeyed(ki int) int {
 		if int(vsched.Ctr(kKey0+id)) != ki {
 			continue
 		}
-		if vsched.CtxErrQuiet(vsched.GetCell(id).(context.Context)) == nil {
+		if !vsched.ChanClosed(vsched.GetCell(id).(<-chan struct{})) {
 			live++
 		}
 	}
@@ -82,8 +84,11 @@ func liveKeyed(ki int) int {
 
 type kbo struct{ key string }
 
-func (b *kbo) NextBackOff() time.Duration { vsched.Observe(oCb, 1, int64(keyIdx(b.key)), 0); return time.Second }
-func (b *kbo) Reset()                     { vsched.Observe(oCb, 0, int64(keyIdx(b.key)), 0) }
+func (b *kbo) NextBackOff() time.Duration {
+	vsched.Observe(oCb, 1, int64(keyIdx(b.key)), 0)
+	return time.Second
+}
+func (b *kbo) Reset() { vsched.Observe(oCb, 0, int64(keyIdx(b.key)), 0) }
 
 // newKeyed: outcome(key, run index) scripts every instance.
 func newKeyed(outcome func(key string, run int) int, delay bool, retry bool) *keyed.Keyed[string, int] {
@@ -149,13 +154,13 @@ func init() {
 		Name: "keyed-restart-word3", Props: []string{"C07"}, ObsNames: stdObs,
 		Doc:   "Keyed: SetContext; SetKey(a); then every word of length 3 over {RestartRoutine(a), ResetRoutine(a), SetContext(fresh,true), RestartAllRoutines}; instances return two steps after cancellation; per-key overlap oracle",
 		Quick: eng.Bounds{PB: 2, Delay: true}, Thorough: eng.Bounds{PB: 3, Delay: true},
-		Body:  restartWord(3, false),
+		Body: restartWord(3, false),
 	})
 	eng.Register(&eng.Scenario{
 		Name: "keyed-restart-2keys", Props: []string{"C07"}, ObsNames: stdObs,
 		Doc:   "Keyed: as keyed-restart-word3 with keys a and b and words of length 2",
 		Quick: eng.Bounds{PB: 2, Delay: true}, Thorough: eng.Bounds{PB: 3, Delay: true},
-		Body:  restartWord(2, true),
+		Body: restartWord(2, true),
 	})
 	eng.Register(&eng.Scenario{
 		Name: "keyed-restart-pb", Props: []string{"C07"}, ObsNames: stdObs,
